@@ -63,10 +63,24 @@ Print Assumptions C17_hci_packet_types.
    nothing is dispatched on an error. *)
 Theorem C17_att_too_short_is_error : forall pdu op fs,
   hd_error pdu = Some op -> lookup op att_classes = Some fs -> wf_fields fs = true ->
+  HostileFields.mem op att_post_classes = false ->
   ((length pdu < need fs 1)%nat <->
    exists e, att_from_bytes att_classes pdu = PErr e /\ (e = EIndex \/ e = EStruct)).
 Proof. exact (att_too_short_is_error att_classes). Qed.
 Print Assumptions C17_att_too_short_is_error.
+
+(* The four ATT response classes that split their '*' field into items in __post_init__
+   (the list is regenerated from the source): their length-driven loops never run out of
+   fuel len + 1, whatever length byte the peer sends (0 skips the loop, 1..3 make the item
+   header unpack fail with struct.error as soon as one item fits). *)
+Theorem C17_att_post_init_classes : att_post_init_classes = att_post_classes.
+Proof. vm_compute. reflexivity. Qed.
+Print Assumptions C17_att_post_init_classes.
+
+Theorem C17_att_from_bytes_terminates : forall pdu,
+  bytes_nonneg pdu = true -> att_from_bytes att_classes pdu <> POutOfFuel.
+Proof. exact (att_from_bytes_terminates att_classes). Qed.
+Print Assumptions C17_att_from_bytes_terminates.
 
 Theorem C17_smp_too_short_is_error : forall pdu code fs,
   hd_error pdu = Some code -> lookup code smp_classes = Some fs -> wf_fields fs = true ->
@@ -220,3 +234,10 @@ Example C17_att_read_request_too_short :
   att_from_bytes att_classes [10; 3] = PErr EStruct /\
   att_from_bytes att_classes [10; 3; 0] = PKnown 10 [VInt 3].
 Proof. vm_compute. split; reflexivity. Qed.
+
+Example C17_att_read_by_type_response_lengths :
+  att_from_bytes att_classes [9; 0; 1; 2; 3] = PKnown 9 [VInt 0; VBytes [1; 2; 3]; VItems []] /\
+  att_from_bytes att_classes [9; 1; 114; 55; 51] = PErr EStruct /\
+  att_from_bytes att_classes [9; 3; 1; 0; 7; 2; 0; 8; 9] =
+    PKnown 9 [VInt 3; VBytes [1; 0; 7; 2; 0; 8; 9]; VItems [[1; 0; 7]; [2; 0; 8]]].
+Proof. vm_compute. repeat split. Qed.
